@@ -94,4 +94,15 @@ PROPS["C02"] = {
     "assumptions": ["a backend answers a frame at most once, on the connection and stream it arrived on"],
 }
 
+PROPS["C13"] = {
+    "module": "CqlVerif.Props.C13",
+    "streams": [{"name": "gate", "quick": 300, "thorough": 6000}],
+    "shrink": False,
+    "claim": "Lean theorems gate_ok (every version byte x opcode byte x configured maximum x decodable-or-not, via a kernel-checked finite table lifted by an abstraction lemma), gate_closed_form, out_of_range_never_routed, startup_one_frame, unsupported_compression_only_error over Model/Front; tied to proxy.go by the gate stream: one fresh connection per probe against the real proxy (known versions x both directions x defined opcodes [all 256 in thorough] x every maximum, unknown version bytes) plus handshake sequences",
+    "note": "trusted: Lean kernel, hand-written Front model + e2e correspondence; the pinned protocol library's header/body decoding is modelled (which opcodes are valid, which minimal bodies decode), not verified; TLS listener not covered",
+    "rule": "gate: X probes = one frame with a chosen version/direction byte and opcode (body rendered by the reference codec for that version) followed by OPTIONS to test usability; handshake sequences of OPTIONS/STARTUP(compression names in any case, unknown, empty)/REGISTER/QUERY/gate probes; compared per frame: reply class and count, frames reaching the backend; distinct = distinct sequences; non-trivial = all",
+    "trusted_base": [KERNEL, DRIVER, HARNESS, "Model/Front.lean hand-written", "GateSpec orders versions numerically, as the gate does (v5 < DSEv1 < DSEv2)"],
+    "assumptions": ["frames that are not requests at all (response opcodes, invalid opcodes) may be dropped by closing the connection"],
+}
+
 NOT_APPLICABLE = {}
